@@ -23,6 +23,7 @@ Kinds == {"t", "m"}
 VTs == {"u64", "bytes"}
 SpNames == {"s1", "s2"}
 Ids == 1..3                   \* persistent savepoint ids as the specification numbers them
+Readers == {"r1", "r2"}
 V == 3000001                  \* a value that exists in every value corpus of the harness
 Errors == {"TableAlreadyOpen", "TableDoesNotExist", "TableExists", "TableTypeMismatch", "TableIsMultimap", "TableIsNotMultimap",
            "InvalidSavepoint", "ImmediateDurabilityRequired", "PersistentSavepointModified", "PersistentSavepointExists",
@@ -46,6 +47,13 @@ Steps ==
   \cup {[e |-> "spreste", s |-> s] : s \in SpNames}
   \cup {[e |-> "spdel", id |-> i] : i \in Ids}
   \cup {[e |-> "sprestp", id |-> i] : i \in Ids}
+  \* read transactions: begun at any moment, read while later transactions commit, abort and restore (C02, C03)
+  \cup {[e |-> "br", h |-> h] : h \in Readers}
+  \cup {[e |-> "dr", h |-> h] : h \in Readers}
+  \cup {[e |-> "get", src |-> h, n |-> n, kind |-> "t", kt |-> "u64", vt |-> "bytes", k |-> k] : h \in Readers, n \in Names, k \in {0, 1}}
+  \cup {[e |-> "len", src |-> h, n |-> n, kind |-> k, kt |-> "u64", vt |-> "bytes"] : h \in Readers, n \in Names, k \in Kinds}
+  \cup {[e |-> "list", src |-> h, kind |-> "t"] : h \in Readers}
+  \cup {[e |-> "mget", src |-> h, n |-> n, kind |-> "m", kt |-> "u64", vt |-> "u64", k |-> 0] : h \in Readers, n \in Names}
 
 SeqsOver(S) == UNION {{q \in [1..n -> S] : \A i, j \in 1..n : i < j => q[i] < q[j]} : n \in 0..Cardinality(S)}
 
@@ -56,7 +64,10 @@ Candidates(s) ==
     [] s.e \in {"delete", "spdel"} -> {Ok(TRUE), Ok(FALSE)} \cup {Err(x) : x \in Errors}
     [] s.e \in {"mins", "mrem"} -> {Ok(TRUE), Ok(FALSE)}
     [] s.e \in {"ins", "rem"} -> {Ok(<<>>), Ok(<<V>>)}
-    [] s.e = "len" -> {Ok(i) : i \in 0..3}
+    [] s.e = "get" -> {Ok(<<>>), Ok(<<V>>)} \cup {Err(x) : x \in Errors}
+    [] s.e = "mget" -> {Ok(<<q, Len(q)>>) : q \in {<<>>, <<0>>, <<1>>, <<0, 1>>}} \cup {Err(x) : x \in Errors}
+    [] s.e = "br" -> {Ok(0)}
+    [] s.e = "len" -> {Ok(i) : i \in 0..3} \cup (IF s.src = "w" THEN {} ELSE {Err(x) : x \in Errors})
     [] s.e = "spp" -> {Ok(i) : i \in Ids} \cup {Err(x) : x \in Errors}
     [] s.e = "cend" -> IF wtx.poisoned THEN {Err("TransactionPoisoned")} ELSE {Ok(0)}   \* (no storage failures here)
     [] s.e = "splist" -> {Ok(q) : q \in SeqsOver(Ids)}
@@ -80,8 +91,10 @@ PNext ==
   /\ Len(path) < PathLen
   /\ \E s \in Steps :
        /\ (inflight # <<>>) = (s.e = "cend")
-       /\ s.e = "len" => (wtx.on /\ s.n \in wtx.open)      \* len() needs a handle
-       /\ IF s.e \in {"close", "spdrop", "cbegin"}
+       /\ (s.e = "len" /\ s.src = "w") => (wtx.on /\ s.n \in wtx.open)      \* len() needs a handle
+       /\ ("src" \in DOMAIN s /\ s.src # "w") => s.src \in DOMAIN readers         \* a read needs its read transaction
+       /\ s.e = "br" => s.h \notin DOMAIN readers
+       /\ IF s.e \in {"close", "spdrop", "cbegin", "dr"}
           THEN Do(s) /\ path' = Append(path, s)
           ELSE \E r \in Candidates(s) :
                  /\ SmallestId(s, r)
